@@ -286,6 +286,90 @@ class StandardObserver:
 
         NestedSampler.check_state = check_state
 
+        # --- training policy (TrainPolicy.tla): the decision and what train_proposal does with it
+        orig_check_training = NestedSampler.check_training
+        orig_train_proposal = NestedSampler.train_proposal
+
+        def _int_or(v, default=-1):
+            try:
+                f = float(v)
+            except (TypeError, ValueError):
+                return default
+            return int(f) if math.isfinite(f) and f == int(f) and abs(f) < 2 ** 30 else default
+
+        def check_training(ns):
+            pre = None
+            try:
+                pre = dict(completed=bool(ns.completed_training), populated=bool(ns.proposal.populated),
+                           train_on_empty=bool(ns.train_on_empty), populating=bool(ns.proposal.populating),
+                           acc_low=bool(ns.mean_block_acceptance < ns.acceptance_threshold),
+                           retrain_acc=bool(ns.retrain_acceptance), it=int(ns.iteration), last=int(ns.last_updated),
+                           freq=_int_or(ns.training_frequency))
+            except Exception:  # noqa
+                pre = None
+            r = orig_check_training(ns)
+            if pre is not None:
+                try:
+                    obs.em.emit("train_check", train=bool(r[0]), force=bool(r[1]), **pre)
+                except Exception:  # noqa
+                    pass
+            return r
+
+        def train_proposal(ns, force=False):
+            rec = {"reset": None, "data_n": -1}
+            prop = ns.proposal
+            pre = None
+            try:
+                pre = dict(force=bool(force), it=int(ns.iteration), last=int(ns.last_updated), cooldown=int(ns.cooldown),
+                           tc=int(getattr(prop, "training_count", 0)), reset_acc=bool(ns.reset_acceptance),
+                           acc_low=bool(ns.mean_block_acceptance < ns.acceptance_threshold),
+                           rw=_int_or(ns.reset_weights), rp=_int_or(ns.reset_permutations),
+                           n_live=int(ns.live_points.size), n_dead=len(ns.nested_samples),
+                           memory=_int_or(ns.memory, 0) if ns.memory else 0)
+            except Exception:  # noqa
+                pre = None
+            o_reset = getattr(prop, "reset_model_weights", None)
+            o_train = prop.train
+
+            def reset_model_weights(*a, **k):
+                w = k.get("weights", a[0] if a else True)
+                p_ = k.get("permutations", a[1] if len(a) > 1 else False)
+                rec["reset"] = (bool(w), bool(p_))
+                return o_reset(*a, **k)
+
+            def train(data, *a, **k):
+                rec["data_n"] = int(len(data))
+                return o_train(data, *a, **k)
+
+            patched = False
+            try:
+                if o_reset is not None:
+                    prop.reset_model_weights = reset_model_weights
+                prop.train = train
+                patched = True
+            except Exception:  # noqa
+                pass
+            try:
+                return orig_train_proposal(ns, force=force)
+            finally:
+                if patched:
+                    for name in ("reset_model_weights", "train"):
+                        try:
+                            delattr(prop, name)
+                        except AttributeError:
+                            pass
+                if pre is not None and patched and pre["rw"] >= 0 and pre["rp"] >= 0:
+                    try:
+                        obs.em.emit("train_call", trained=bool(rec["data_n"] >= 0),
+                                    reset_w=bool(rec["reset"][0]) if rec["reset"] else False,
+                                    reset_p=bool(rec["reset"][1]) if rec["reset"] else False,
+                                    data_n=int(rec["data_n"]), **pre)
+                    except Exception:  # noqa
+                        pass
+
+        NestedSampler.check_training = check_training
+        NestedSampler.train_proposal = train_proposal
+
         # --- C12: what check_resume makes of the restored pool
         orig_check_resume = NestedSampler.check_resume
 
